@@ -14,7 +14,7 @@ runtime quantity).
 import re
 
 from .. import mir, e3_trav as e3
-from ..common import CallGraph, table, call_matches, is_derive, with_closures
+from ..common import keyed_collapses, CallGraph, table, call_matches, is_derive, with_closures
 from ..engine import Result, ok, finding, assumption, where
 from ..facts import BrokenCheck
 from . import c12
@@ -247,7 +247,14 @@ def handcode(F, res):
                 for bi, t in mir.calls(h):
                     if (t.get("method") in LIMITED) and "Deserializer" in (t.get("trait") or ""):
                         hits.append((t["line"], t["method"]))
-        if hits:
+        drops = []
+        if g is not None:
+            for h in with_closures(F, g):
+                drops += keyed_collapses(F, h)
+        if drops:
+            res.add([finding("HANDCODE", "%s|writer re-keys the elements" % b, where(g, drops[0][0]),
+                             "hand-written writer on the wire path (%s) collects what it writes into a keyed container under the %s: elements are silently left out of the encoding" % (why, drops[0][1]))])
+        elif hits:
             res.add([finding("HANDCODE", "%s|%s" % (b, hits[0][1]), where(g, hits[0][0]),
                              "hand-written reader on the wire path (%s) asks the format for `%s`: ciborium (the only TIR format) hands a %s to the visitor from its fixed 4096-byte scratch buffer and *rejects* longer ones, while the writer has no such limit - values above 4096 bytes encode but no longer decode" % (why, hits[0][1], LIMITED[hits[0][1]]))])
         else:
